@@ -102,6 +102,11 @@ CHECKS = {
    "The merged header's reference order is modelled from MergeHeaders' documented behaviour.",
    "property-based testing (rapid): reference model (multiset + order predicates) over generated inputs with fault injection by truncation",
    "DESIGN.md 3/C18"),
+ "C11": ("exploration",
+   "Generated-input search: rapid structure-aware mutations (flips, grammar-character sets, insert/delete/duplicate/splice, truncation, 16/32-bit length-field overwrites with hostile values) of valid encodings for 17 decoder entry points (BGZF rd 1/2, BAM via re-wrapped inflated payload and raw stream with all Omit modes, SAM reader, UnmarshalSAM, ParseAux, ParseCigar, header text/binary, BAI/CSI/tabix, FAI text and FASTA, CRAM built from a generated container/block description with correct CRCs, ITF-8/LTF-8); every call runs in an isolated worker process (4 GiB address space, 64 MiB stack, 3 s budget re-run at 30 s) and every value returned without error is fed to the library's accessors, formatters, bam.Writer and bam.Index. Thorough tier adds native coverage-guided go fuzzing of the same targets.",
+   "A worker that dies because one make() sized by a length field exceeds the limit is counted as oversize_not_judged; heap growth to the limit, stack overflow, panics and calls that do not return are violations.",
+   "property-based fuzzing: rapid structure-aware mutation in the quick tier, native go test -fuzz in the thorough tier; oracle = totality (returns, no panic, bounded time) in an isolated process",
+   "DESIGN.md 3/C11"),
 }
 
 NOT_YET = {}
